@@ -157,7 +157,9 @@ def oracle(c, r):
                 if since_det >= 5:
                     fails.append(("still-uninitialized", "ReadValue still aborts %d intervals after the detector started" % since_det))
                 continue
-            down = mon in ("none", "crashed") or not net_up or arch != "running" or (mon == "closed" and not conn_ever)
+            # listener closed while the archetype runs: alive is right if the detector connected earlier, failed if not;
+            # the driver cannot tell which, so that situation is judged by the model only
+            down = mon in ("none", "crashed") or not net_up or arch != "running"
             if det and stable >= 5 and since_det >= 5:
                 if down and o["v"] != "T":
                     fails.append(("not-failed-after-" + cause, "%d intervals after %s the detector reports alive" % (stable, cause)))
@@ -233,6 +235,20 @@ def run(ctx):
             cases.append(gen_case(rng, ctx.tier))
     for i, c in enumerate(cases):
         c["id"] = i
+    # Monitor.Close racing with the accept loop (in a process of its own: a crash there takes the process down)
+    if not ctx.replay or (ctx.replay and cases[0].get("closerace")):
+        nrace = 200 if ctx.tier == "quick" else 1500
+        rcr, outr, errr = vlib.sh([os.path.join(vlib.BIN, "c19"), "-closerace", str(nrace)], timeout=600)
+        ctx.add_case("closerace-%d" % nrace, True)
+        ctx.extra["closerace"] = {"iterations": nrace, "rc": rcr, "out": outr.strip()[-100:]}
+        if rcr != 0 or '"ok"' not in outr:
+            sig = "monitor-close-race-did-not-return" if "did-not-return" in outr else "monitor-close-race-crash"
+            ctx.failures.append({"signature": sig, "what": "Monitor.Close while connections arrive: the accept loop %s" %
+                                 ("did not return" if "did-not-return" in outr else "crashed the process: " + (errr.strip().split("\n") or [""])[0][:200]),
+                                 "case": {"closerace": nrace, "interval_ms": INTERVAL, "timeout_ms": TIMEOUT, "events": []}, "obs": (outr + errr)[-1500:]})
+    cases = [c for c in cases if not c.get("closerace")]
+    if not cases:
+        return
     rc, byid, err = run_harness(cases)
     if rc != 0 or len(byid) != len(cases):
         ctx.breaks.append({"what": "harness c19 failed (rc=%d, %d/%d results)" % (rc, len(byid), len(cases)), "detail": err[-2000:]})
@@ -262,17 +278,6 @@ def run(ctx):
             if sig in sigs2:
                 ctx.failures.append({"signature": sig, "what": what, "case": c, "obs": r2 or byid[c["id"]]})
         ctx.extra["oracle_rechecks"] = ctx.extra.get("oracle_rechecks", 0) + 1
-    # Monitor.Close racing with the accept loop (in a process of its own: a crash there takes the process down)
-    if not ctx.replay or (ctx.replay and cases[0].get("closerace")):
-        nrace = 200 if ctx.tier == "quick" else 1500
-        rcr, outr, errr = vlib.sh([os.path.join(vlib.BIN, "c19"), "-closerace", str(nrace)], timeout=600)
-        ctx.add_case("closerace-%d" % nrace, True)
-        ctx.extra["closerace"] = {"iterations": nrace, "rc": rcr, "out": outr.strip()[-100:]}
-        if rcr != 0 or '"ok"' not in outr:
-            sig = "monitor-close-race-did-not-return" if "did-not-return" in outr else "monitor-close-race-crash"
-            ctx.failures.append({"signature": sig, "what": "Monitor.Close while connections arrive: the accept loop %s" %
-                                 ("did not return" if "did-not-return" in outr else "crashed the process: " + (errr.strip().split("\n") or [""])[0][:200]),
-                                 "case": {"closerace": nrace, "interval_ms": INTERVAL, "timeout_ms": TIMEOUT, "events": []}, "obs": (outr + errr)[-1500:]})
     ctx.extra["input_distribution"] = dist
     ctx.extra["timing"] = {"interval_ms": INTERVAL, "timeout_ms": TIMEOUT, "note": "timing only sampled"}
     ctx.samples = [{"events": c["events"][:14], "reads": byid[c["id"]]["reads"][:6]} for c in cases[:3]]
